@@ -136,6 +136,8 @@ type FnCtx struct {
 	curDefs      *[]string
 	storeDefs    map[Term]storeDef
 	private      []privObj
+	frozenFV     map[*ssa.FreeVar]Term
+	pointSites   map[string]int
 	emitErr      func(map[*Oblig]bool) (string, error)
 }
 
@@ -180,7 +182,7 @@ func (g *Gen) newCtx(fn *ssa.Function) *FnCtx {
 		blocks: map[*ssa.BasicBlock]*BlockVC{}, edges: map[string]*EdgeVC{}, oblByID: map[string]*Oblig{},
 		compSort: map[string]string{}, loops: map[*ssa.BasicBlock]*LoopInfo{}, trusted: map[string]bool{},
 		uncontr: map[string]bool{}, inferredPure: map[string]bool{}, specWFDone: map[string]bool{}, extGlobals: map[string]bool{}, callRes: map[string][]callSiteRes{}, ghostEnv: map[string]TV{}, occ: map[string]int{}, boxDecl: map[string]bool{},
-		pureDecl: map[string]bool{}, strLits: map[string]Term{}, storeDefs: map[Term]storeDef{}}
+		pureDecl: map[string]bool{}, strLits: map[string]Term{}, storeDefs: map[Term]storeDef{}, frozenFV: map[*ssa.FreeVar]Term{}}
 	if fn != nil {
 		c.name = g.fnName(fn)
 		c.spec = g.specs.Funcs[c.name]
@@ -421,6 +423,18 @@ func (c *FnCtx) allocRef() Term {
 	r := c.freshConst("ref", "Int")
 	c.assume(eq(r, app("+", old, "1")))
 	c.set("$alloc", r)
+	return r
+}
+
+// tyInv0: the type invariant of a value that exists since function entry.
+func (c *FnCtx) tyInv0(x Term, t types.Type) Term {
+	if c.entry == nil {
+		return c.tyInv(x, t)
+	}
+	saved := c.st
+	c.st = c.entry
+	r := c.tyInv(x, t)
+	c.st = saved
 	return r
 }
 
